@@ -708,7 +708,8 @@ type emitter struct {
 }
 
 func (em *emitter) emitWorld(r *u.Rng, origin string, sh shape, w *World, defect string) {
-	desc := fmt.Sprintf("%s shape=%s pods=%d defect=%s cm=%d nodepoolkey=%q forbidden=%v", origin, sh.name, len(w.Pods), defect, w.Cfg.CMState, w.Cfg.NodePoolKey, w.Forbidden)
+	_, staleSG := w.Pods[0].Labels["kai.scheduler/subgroup-name"]
+	desc := fmt.Sprintf("%s shape=%s pods=%d defect=%s cm=%d nodepoolkey=%q forbidden=%v stale-subgroup-label=%v", origin, sh.name, len(w.Pods), defect, w.Cfg.CMState, w.Cfg.NodePoolKey, w.Forbidden, staleSG)
 	for _, check := range []string{"CkGroup", "CkIdem"} {
 		in := newIntern()
 		var runs [][]Event
